@@ -105,7 +105,7 @@ def fmt_table(value):
         j = num_j(x)
         if j is not None and j[0] != "b":
             try:
-                out.append([j, enc("%.10g" % x)])
+                out.append([j, enc("%.10g" % (x + 0.0))])
             except Exception:
                 pass
     if isinstance(value, list):
